@@ -246,6 +246,12 @@ def _tree_replay(ctx, pid, mode):
     """the replay file of a tree case holds the observations (tree before, visit order, freelist events, tree after): they are judged again"""
     res = Result()
     res.rule = "the recorded observations of one commit, judged again by the extracted Tree.v"
+    try:
+        nested = bool(re.search(r"(?m)^(child|corder|cpost) ", open(ctx.replay, errors="replace").read(2000000)))
+    except OSError:
+        nested = False
+    if nested and not mode.startswith("n"):
+        mode = "n" + mode
     for r in rejudge(mode, ctx.replay):
         absorb(res, pid, *r)
     return res
@@ -316,6 +322,8 @@ def c04(ctx):
 def c07(ctx):
     """C07 page accounting (tree replays: see _tree_replay): after every commit the file bytes are decoded by the extracted Coq reader (Layout.v) and
     Layout.accounted / key order / element bounds / file length are evaluated; Tx.Check must be clean at the end of every history."""
+    if ctx.replay and _is_tree_replay(ctx.replay):
+        return _tree_replay(ctx, "C07", "tree07")
     res = _hist(ctx, "c07", "commit", HIST_RULE + "; one file image per commit; plus failed-commit histories (every I/O call index of a commit failed once, see C08) checked for the same accounting", 240, 4000)
     # failed transactions are part of C07's quantifier: the C08 fault histories, judged by the accounting rules only
     if not ctx.replay:
@@ -334,8 +342,19 @@ def c12(ctx):
     """C12 format: every file image is decoded by the extracted independent reader and compared with the API dump taken just before the commit."""
     if ctx.replay and _is_node_replay(ctx.replay):
         return _node_replay(ctx, "C12", "node12")
+    if ctx.replay and _is_tree_replay(ctx.replay):
+        return _tree_replay(ctx, "C12", "ntree12")
     res = _hist(ctx, "c12", "commit", HIST_RULE + "; one file image per commit" + NODE_RULE, 240, 4000)
     _node_extra(ctx, res, "C12", "node12")
+    # the published convention that an inline bucket holds plain key/value pairs only (no nested bucket), judged on nested commits
+    if not ctx.replay:
+        ctx3 = Ctx(pid="C12", tier=ctx.tier, seed=ctx.seed, replay=None, t0=ctx.t0, budget_s=ctx.budget_s)
+        ctx3.dir = ctx.dir + ".nt"
+        with ctx3:
+            quick = ctx.tier == "quick" or ctx.budget_s
+            for r in run_sharded(ctx3, "ntree", 4 if quick else 16, lambda i: ["-seed", str(ctx.seed * 1000 + 900 + i), "-n", "100" if quick else "1500", "-dir", "{dir}"],
+                                 ctx.budget_s or (600 if quick else 3000), oracle_mode="ntree12"):
+                absorb(res, "C12", *r)
     return res
 
 
